@@ -306,7 +306,7 @@ def run(check, an: Analysis):
     # ---- L1 -----------------------------------------------------------------
     for fn, stmt, target, recvs in rules.attribute_stores(an, 'time', LOOP):
         where = '%s:%d' % (fn.module.relpath, stmt.lineno)
-        ok = fn.cls is not None and fn.cls.qn == LOOP and fn.name in ('__init__',
+        ok = rules.owned_by(an, fn, LOOP) and fn.name in ('__init__',
                                                                      '_run_events')
         detail = 'Loop.time written by %s' % short(fn.qn)
         if ok and fn.name == '_run_events':
@@ -800,7 +800,7 @@ def _classify(an, callee, call, kind, expr, depth):
 
 
 def _check_schedule_preconditions(check, an: Analysis):
-    sites = rules.call_sites_of(an, LOOP + '.schedule')
+    sites = rules.call_sites_of(an, an.method(LOOP, 'schedule').qn)
     n_dated = 0
     work = []
     for fn, call, frame in sites:
@@ -982,7 +982,7 @@ def _check_plumbing(check, an: Analysis):
                    where_fn(schedule), 'activations are queued under `time + delay` when a '
                    'delay is given and under `at` when a date is given: %s' % kinds)
     # every dated hand-over to the loop forwards what it was given (discovered sites)
-    for fn, call, frame in rules.call_sites_of(an, LOOP + '.schedule'):
+    for fn, call, frame in rules.call_sites_of(an, an.method(LOOP, 'schedule').qn):
         dated = [kw for kw in call.keywords if kw.arg in ('delay', 'at')]
         if not dated:
             continue
